@@ -4,7 +4,6 @@
 package driver
 
 import (
-	"text/template/parse"
 	"encoding/json"
 	"fmt"
 	"math/rand"
@@ -15,6 +14,7 @@ import (
 	"strconv"
 	"strings"
 	"sync"
+	"text/template/parse"
 	"time"
 
 	"golang.org/x/tools/go/ssa"
@@ -203,7 +203,7 @@ func (r *Run) Explore(name string, fn *ssa.Function) *HarnessResult {
 					if ob.Script != "" {
 						r.mu.Lock()
 						if len(r.scripts) < 4000 {
-								r.scripts = append(r.scripts, scriptRec{ob.Script, ob.Verdict})
+							r.scripts = append(r.scripts, scriptRec{ob.Script, ob.Verdict})
 						}
 						r.mu.Unlock()
 					}
@@ -248,7 +248,7 @@ func (r *Run) Explore(name string, fn *ssa.Function) *HarnessResult {
 				active++
 				mu.Unlock()
 
-				if m.Ctx().NumTerms() > 1_500_000 {
+				if m.Ctx().NumTerms() > 600_000 {
 					flush(m)
 					m = xexec.NewMachine(r.P, solver)
 					m.Debug = r.Cfg.Debug
@@ -403,6 +403,7 @@ type replayOut struct {
 	Asserts []string `json:"asserts"`
 	Observe []string `json:"observe"`
 	Missing []string `json:"missing"`
+	Unused  []string `json:"unused"`
 }
 
 // NativeReplay compiles the harnesses natively (go test -overlay) per package
